@@ -372,7 +372,7 @@ class PeerWorld:
         asn = self.peer_as if asn is None else asn
         return bgpmsg.open_msg(asn, self.hold if hold is None else hold, rid, bgpmsg.default_caps(asn, **kw))
 
-    async def establish(self, hold=None) -> bool:
+    async def establish(self, hold=None, **caps) -> bool:
         """Remote side of a normal session establishment; returns True once UPDATE/EOR/KEEPALIVE flows."""
         t_end = self.clock.now + 3.0
         while self.remote is None and self.clock.now < t_end:  # wait for the (re)connection
@@ -380,7 +380,7 @@ class PeerWorld:
         n = getattr(self, 'conn_rx_start', 0)
         if not await self.wait_rx(1, n, 3000):
             return False
-        await self.remote_send(self.open_bytes(hold=hold), 'OPEN', hold_ms=(self.hold if hold is None else hold) * 1000)
+        await self.remote_send(self.open_bytes(hold=hold, **caps), 'OPEN', hold_ms=(self.hold if hold is None else hold) * 1000)
         if not await self.wait_rx(4, n, 3000):
             return False
         await self.remote_send(bgpmsg.keepalive(), 'KA')
